@@ -38,6 +38,15 @@ def gen_prop_ast(rng):
         k = rng.randint(lo, max(lo, min(hi, len(names))))
         return [{"k": "str", "id": n} for n in rng.sample(names, min(k, len(names)))]
     def cc_rule():
+        if rng.random() < 0.15:
+            # alternatives that are sub-propositions (a plain group with a generated id, a named package); the default names
+            # one of them, an item that is not among the alternatives, or nothing
+            grp = {"k": rng.choice(["Any", "All"]), "ch": strs(2, 2), "id": None}
+            other = rng.choice([strs(1, 1)[0], {"k": "All", "ch": strs(2, 2), "id": g.fresh() or "PK"}])
+            alts = [grp, other]; rng.shuffle(alts)
+            named = [a["id"] for a in alts if a["k"] not in ("str", "var") and a.get("id")]
+            dflt = rng.choice([[rng.choice(named)] if named else ["zz"], ["zz"], [rng.choice(names)], None])
+            return {"k": rng.choice(["CcAny", "CcXor"]), "ch": alts, "default": dflt, "id": g.fresh()}
         ch = strs(2, 4)
         if rng.random() < 0.3:
             ch.append(g.prop(rng.randint(0, 1)))          # a compound operand next to the atoms
